@@ -20,7 +20,7 @@ import (
 var c10Tokens = []string{
 	"NOERROR", "SERVFAIL", "NXDOMAIN", "REFUSED", "noerror", "refused", "BADKEYWORD", "FORMERR",
 	"A", "AAAA", "CNAME", "MX", "PTR", "TXT", "HTTPS", "SVCB", "SRV", "NS", "none", "reserved", "XYZ", "a", "ptr",
-	";", " ", ".", "=", "\\,",
+	";", " ", ".", "=", "\\,", ",important", // (the last one ends the value: another modifier follows)
 	"0", "10", "65535", "65536", "-1", "1e3",
 	"1.2.3.4", "::1", "::ffff:1.2.3.4", "[::1]", "1.2.3",
 	"example.org", "a-", "-a", "example.org.", strings.Repeat("x", 64), "alpn=h2", "",
@@ -273,6 +273,17 @@ func c10ClassAgrees(want, got string) bool {
 	return want == got
 }
 
+// c10UnescapedComma returns the position of the first comma of v that is not
+// escaped with a backslash, or -1.
+func c10UnescapedComma(v string) int {
+	for i := 0; i < len(v); i++ {
+		if v[i] == ',' && (i == 0 || v[i-1] != '\\') {
+			return i
+		}
+	}
+	return -1
+}
+
 func c10Check(c *Ctx, v string) (accepted bool) {
 	text := "||h.test^$dnsrewrite=" + v
 	var r1, r2 *rules.NetworkRule
@@ -283,6 +294,14 @@ func c10Check(c *Ctx, v string) (accepted bool) {
 	}); p != nil {
 		c.Run.Violate(ev.Violation{Pred: "no-crash", Sig: map[string]any{"value": v}, What: fmt.Sprintf("parsing %q panics: %v", text, p), Replay: map[string]any{"value": v}})
 		return false
+	}
+	// a value that is followed by further modifiers (an unescaped comma ends it): if the value alone is
+	// rejected, the rule with more modifiers behind it is rejected as well
+	if cut := c10UnescapedComma(v); cut >= 0 && e1 == nil {
+		if _, eAlone := rules.NewNetworkRule("||h.test^$dnsrewrite="+v[:cut], 1); eAlone != nil {
+			c.Run.Violate(ev.Violation{Pred: "malformed-value-is-rejected", Sig: map[string]any{"value": v},
+				What: fmt.Sprintf("%q is accepted although its $dnsrewrite value alone, %q, is rejected: %v", text, v[:cut], eAlone), Replay: map[string]any{"value": v}})
+		}
 	}
 	// the same value on an exception rule, and through the line parser: accepted or rejected alike, with the same value
 	if v != "" {
